@@ -285,7 +285,10 @@ class Verdict:
             if replay in seen:
                 continue
             seen.add(replay)
-            print("VIOLATION property=%s replay=%s" % (self.pid, replay))
-            log("  ->", what)
+            if len(seen) <= 12:
+                print("VIOLATION property=%s replay=%s" % (self.pid, replay))
+                log("  ->", what[:600])
+        if len(seen) > 12:
+            log("  (%d further violating cases not listed)" % (len(seen) - 12))
         sys.stdout.flush()
         return 1 if self.violations else 0
